@@ -220,6 +220,17 @@ def runCont (E : Env) (st : St) (h' : Heap) (c : Id) (ev : Option CEvent) : Out 
 
 def skip (st : St) : Out := ⟨st, [], some .other⟩
 
+/-- The `old_value` of `setattr_trait` when notifiers exist (ctraits.c:2482-2512):
+the `__dict__` entry, else the default, which is stored silently. -/
+def oldValue (h : Heap) (f : Field) (fresh : Id) : Heap × Val :=
+  if f.val == .unset then materialise h f.dflt fresh else (h, f.val)
+
+/-- `call_notifiers(tnotifiers, …, obj, name, old, new)` on the notifiers of
+`o.n` as they are when the change happens (an empty list calls nothing). -/
+def fire (E : Env) (H : Hooks) (h' : Heap) (o : Id) (n : Name) (old new : Val) : Out :=
+  let r := callTrait E h' o n old new (H.get (.trait o n)) H []
+  ⟨⟨h', r.1⟩, r.2.1, r.2.2⟩
+
 /-- One mutation: heap change, then notifications.  `err = some .other` with an
 unchanged state marks an ill-formed mutation (unknown object, index out of
 range for the simplified list operations, …) that the harness never generates. -/
@@ -231,18 +242,14 @@ def mutate (E : Env) (st : St) : Mutation → Out
       (match findField fs n with
        | none => skip st
        | some f =>
-         let ns := st.H.get (.trait o n)
-         if ns.isEmpty then
+         if (st.H.get (.trait o n)).isEmpty then
            -- no notifiers: plain store, the default is not evaluated
            ⟨⟨storeField st.h o n v, st.H⟩, [], none⟩
          else
            -- old value: `__dict__` entry, else the default, which is stored silently first
-           let (h1, old) := if f.val == .unset then materialise st.h f.dflt fresh else (st.h, f.val)
-           let h' := storeField h1 o n v
-           if old == v then ⟨⟨h', st.H⟩, [], none⟩
-           else
-             let r := callTrait E h' o n old v ns st.H []
-             ⟨⟨h', r.1⟩, r.2.1, r.2.2⟩)
+           let mv := oldValue st.h f fresh
+           if mv.2 == v then ⟨⟨storeField mv.1 o n v, st.H⟩, [], none⟩
+           else fire E st.H (storeField mv.1 o n v) o n mv.2 v)
     | _ => skip st
   | .read o n fresh =>
     match st.h.get o with
@@ -251,13 +258,8 @@ def mutate (E : Env) (st : St) : Mutation → Out
        | none => skip st
        | some f =>
          if f.val == .unset then
-           let (h1, v) := materialise st.h f.dflt fresh
-           let h' := storeField h1 o n v
-           let ns := st.H.get (.trait o n)
-           if ns.isEmpty then ⟨⟨h', st.H⟩, [], none⟩
-           else
-             let r := callTrait E h' o n .unset v ns st.H []
-             ⟨⟨h', r.1⟩, r.2.1, r.2.2⟩
+           let mv := materialise st.h f.dflt fresh
+           fire E st.H (storeField mv.1 o n mv.2) o n .unset mv.2
          else ⟨st, [], none⟩)
     | _ => skip st
   | .addTrait o n tagged d =>
@@ -269,12 +271,7 @@ def mutate (E : Env) (st : St) : Mutation → Out
          -- existing trait replaced, notifiers copied over, no event
          ⟨⟨st.h.upd o (.inst (fs.map (fun f => if f.name == n then { f with tagged := tagged, dflt := d } else f))), st.H⟩, [], none⟩
        | none =>
-         let h' := st.h.upd o (.inst (fs ++ [⟨n, tagged, d, .unset⟩]))
-         let ns := st.H.get (.trait o nTraitAdded)
-         if ns.isEmpty then ⟨⟨h', st.H⟩, [], none⟩
-         else
-           let r := callTrait E h' o nTraitAdded .undef (.name n) ns st.H []
-           ⟨⟨h', r.1⟩, r.2.1, r.2.2⟩)
+         fire E st.H (st.h.upd o (.inst (fs ++ [⟨n, tagged, d, .unset⟩]))) o nTraitAdded .undef (.name n))
     | _ => skip st
   | .listAppend c x =>
     match st.h.get c with
